@@ -166,11 +166,21 @@ Required(f, k, p) == LET r == RunF(f, Env("live", k, {}, NU, Inf, Inf), p) IN IF
 (* what a client assembles from the response: declared reads / writes / events / contract utxo sets (transient bucket), the   *)
 (* request with its limits and amount, the '$' output (fee; -1: none), the output to the contract (toC), the contract's utxo *)
 (* inputs (rin of them) and outputs (rout) among the transaction's real inputs / outputs                                     *)
-Honest(rp, p, a) == [prog |-> p, amt |-> a, hasreq |-> TRUE, rd |-> rp.rd, wr |-> rp.wr, ev |-> rp.ev, dcin |-> rp.cin,
+(* The declared write set is a LIST of records (key, value), as the transaction carries it: the honest one has one record per    *)
+(* written key in key order; a tampered one may repeat a key, repeat a whole record or have its records in another order.       *)
+(* The declared read set is the function rd plus a list rdx of further records for keys that have a record already.             *)
+OutSeq(w) == LET s == SetToSortSeq({n \in Keys : w[n] # NoWrite}, <) IN [i \in 1..Len(s) |-> [n |-> s[i], v |-> w[s[i]]]]
+Honest(rp, p, a) == [prog |-> p, amt |-> a, hasreq |-> TRUE, rd |-> rp.rd, rdx |-> <<>>, wl |-> OutSeq(rp.wr), ev |-> rp.ev, dcin |-> rp.cin,
                      dcout |-> rp.cout, lim |-> rp.lim, fee |-> IF rp.gas > 0 THEN rp.gas ELSE -1, toC |-> a,
                      rin |-> rp.cin, rout |-> rp.cout]
 Declared(tx) == {n \in Keys : tx.rd[n] # Undecl}
-Written(tx) == {n \in Keys : tx.wr[n] # NoWrite}
+Written(tx) == {tx.wl[i].n : i \in 1..Len(tx.wl)}
+RecVals(tx, n) == {tx.wl[i].v : i \in {i \in 1..Len(tx.wl) : tx.wl[i].n = n}}          \* the values the records of key n declare
+RecVal(tx, n) == CHOOSE v \in RecVals(tx, n) : TRUE
+LastVal(tx, n) == tx.wl[Max({i \in 1..Len(tx.wl) : tx.wl[i].n = n})].v                  \* the record a commit applies last
+(* the declared list and an executed write set (one record per key) are the same collection of records *)
+SameRecords(l, w) == /\ Len(l) = Cardinality({n \in Keys : w[n] # NoWrite})
+                     /\ \A n \in {n \in Keys : w[n] # NoWrite} : \E i \in 1..Len(l) : l[i] = [n |-> n, v |-> w[n]]
 SumAmt(s) == FoldLeft(LAMBDA x, o : x + o.amt, 0, s)
 SumTo(s, w) == FoldLeft(LAMBDA x, o : IF o.to = w THEN x + o.amt ELSE x, 0, s)
 BagIncl(a, b) == \A i \in 1..Len(a) : Cardinality({j \in 1..Len(a) : a[j] = a[i]}) <= Cardinality({j \in 1..Len(b) : b[j] = a[i]})
@@ -181,12 +191,22 @@ T(tk, n, v, j, d, p) == [tk |-> tk, n |-> n, v |-> v, j |-> j, d |-> d, prog |->
 NoT == T("none", 0, "", 0, "", <<>>)
 Params(kind, tx) ==
   CASE kind = "none"        -> {NoT}
+    \* another version: no version, that of another transaction, or ("off") the same transaction with another offset
     [] kind = "read_ver"    -> ({T(kind, n, v, 0, "", <<>>) : n \in Declared(tx), v \in {"none", "s0", "s"}} \ {T(kind, n, tx.rd[n], 0, "", <<>>) : n \in Declared(tx)})
+                               \cup {T(kind, n, "off", 0, "", <<>>) : n \in {n \in Declared(tx) : tx.rd[n] # "none"}}
     [] kind = "read_drop"   -> {T(kind, n, "", 0, "", <<>>) : n \in Declared(tx)}
     [] kind = "read_add"    -> {T(kind, n, "", 0, "", <<>>) : n \in Keys \ Declared(tx)}
     [] kind = "write_drop"  -> {T(kind, n, "", 0, "", <<>>) : n \in Written(tx)}
     [] kind = "write_add"   -> {T(kind, n, "z", 0, "", <<>>) : n \in Keys \ Written(tx)}
-    [] kind = "write_val"   -> ({T(kind, n, v, 0, "", <<>>) : n \in Written(tx), v \in {"z", DelMark}} \ {T(kind, n, tx.wr[n], 0, "", <<>>) : n \in Written(tx)})
+    [] kind = "write_val"   -> ({T(kind, n, v, 0, "", <<>>) : n \in Written(tx), v \in {"z", DelMark}} \ {T(kind, n, RecVal(tx, n), 0, "", <<>>) : n \in Written(tx)})
+    \* the record of key n overwritten with a copy of the record of key j (same number of records)
+    [] kind = "write_dup"   -> {T(kind, n, "", j, "", <<>>) : n \in Written(tx), j \in Written(tx)} \ {T(kind, n, "", n, "", <<>>) : n \in Written(tx)}
+    \* the records of keys n and j change places
+    [] kind = "write_swap"  -> {T(kind, r[1], "", r[2], "", <<>>) : r \in {r \in Written(tx) \X Written(tx) : r[1] < r[2]}}
+    \* one more record for a key that has one: a copy of it, or another value
+    [] kind = "write_app"   -> {T(kind, n, v, 0, "", <<>>) : n \in Written(tx), v \in {"z"}} \cup {T(kind, n, RecVal(tx, n), 0, "", <<>>) : n \in Written(tx)}
+    \* one more record for a declared read, with the same or another version, before the first or after the last record
+    [] kind = "read_dup"    -> {T(kind, n, v, 0, d, <<>>) : n \in Declared(tx), v \in {"none", "s0", "s"}, d \in {"first", "last"}}
     [] kind = "arg"         -> ({T(kind, 0, "", j, "", [tx.prog EXCEPT ![j] = s]) : j \in 1..Len(tx.prog), s \in Steps}
                                 \ {T(kind, 0, "", j, "", tx.prog) : j \in 1..Len(tx.prog)})
                                \cup (IF Len(tx.prog) < 2 THEN {} ELSE {T(kind, 0, "", j, "", RemoveAt(tx.prog, j)) : j \in 1..Len(tx.prog)})
@@ -200,6 +220,8 @@ Params(kind, tx) ==
     [] kind = "ev_drop"     -> {T(kind, 0, "", j, "", <<>>) : j \in 1..Len(tx.ev)}
     [] kind = "ctr_alter"   -> IF tx.dcout # <<>> THEN {T(kind, 0, "", 0, "", <<>>)} ELSE {}
     [] kind = "redirect"    -> IF tx.dcout # <<>> THEN {T(kind, 0, "", 0, "", <<>>)} ELSE {}
+    \* one of the contract's outputs left out of the transaction's real outputs (the amount becomes the client's change)
+    [] kind = "cout_drop"   -> {T(kind, 0, "", j, "", <<>>) : j \in 1..Len(tx.rout)}
     [] kind = "cin_omit"    -> IF tx.dcin > 0 THEN {T(kind, 0, "", 0, "", <<>>)} ELSE {}
     [] kind = "cin_extra"   -> IF tx.dcin < NU THEN {T(kind, 0, "", 0, "", <<>>)} ELSE {}
     [] kind = "req_drop"    -> {T(kind, 0, "", 0, "", <<>>)}
@@ -210,8 +232,13 @@ Tampered(tx, t, k) ==
     [] t.tk = "read_ver"    -> [tx EXCEPT !.rd[t.n] = t.v]
     [] t.tk = "read_drop"   -> [tx EXCEPT !.rd[t.n] = Undecl]
     [] t.tk = "read_add"    -> [tx EXCEPT !.rd[t.n] = k[t.n].ver]
-    [] t.tk = "write_drop"  -> [tx EXCEPT !.wr[t.n] = NoWrite]
-    [] t.tk \in {"write_add", "write_val"} -> [tx EXCEPT !.wr[t.n] = t.v]
+    [] t.tk = "read_dup"    -> [tx EXCEPT !.rdx = Append(@, [n |-> t.n, ver |-> t.v])]
+    [] t.tk = "write_drop"  -> [tx EXCEPT !.wl = SelectSeq(tx.wl, LAMBDA r : r.n # t.n)]
+    [] t.tk \in {"write_add", "write_app"} -> [tx EXCEPT !.wl = Append(@, [n |-> t.n, v |-> t.v])]
+    [] t.tk = "write_val"   -> [tx EXCEPT !.wl = [i \in 1..Len(tx.wl) |-> IF tx.wl[i].n = t.n THEN [n |-> t.n, v |-> t.v] ELSE tx.wl[i]]]
+    [] t.tk = "write_dup"   -> [tx EXCEPT !.wl = [i \in 1..Len(tx.wl) |-> IF tx.wl[i].n = t.n THEN [n |-> t.j, v |-> RecVal(tx, t.j)] ELSE tx.wl[i]]]
+    [] t.tk = "write_swap"  -> [tx EXCEPT !.wl = [i \in 1..Len(tx.wl) |-> IF tx.wl[i].n = t.n THEN [n |-> t.j, v |-> RecVal(tx, t.j)]
+                                                                          ELSE IF tx.wl[i].n = t.j THEN [n |-> t.n, v |-> RecVal(tx, t.n)] ELSE tx.wl[i]]]
     [] t.tk = "arg"         -> [tx EXCEPT !.prog = t.prog]
     [] t.tk = "limit_below" -> [tx EXCEPT !.lim[t.d] = @ - 1]
     [] t.tk = "limit_above" -> [tx EXCEPT !.lim[t.d] = @ + (IF t.d = "c" THEN 1000 ELSE 1), !.fee = Bump(@)]   \* the client pays for what it declares
@@ -223,14 +250,16 @@ Tampered(tx, t, k) ==
     [] t.tk = "ev_drop"     -> [tx EXCEPT !.ev = RemoveAt(@, t.j)]
     [] t.tk = "ctr_alter"   -> [tx EXCEPT !.dcout[1].to = "a"]
     [] t.tk = "redirect"    -> [tx EXCEPT !.rout = <<[to |-> "a", amt |-> SumAmt(tx.dcout)]>>]
+    [] t.tk = "cout_drop"   -> [tx EXCEPT !.rout = RemoveAt(@, t.j)]
     [] t.tk = "cin_omit"    -> [tx EXCEPT !.rin = 0]
     [] t.tk = "cin_extra"   -> [tx EXCEPT !.dcin = @ + 1, !.rin = @ + 1]      \* one more utxo of the vault declared and spent; the surplus is the client's change
     [] t.tk = "req_drop"    -> [tx EXCEPT !.hasreq = FALSE]
 
 (* ------------------------------------------------------------------ verification --- *)
-Fresh(tx, k) == \A n \in Declared(tx) : tx.rd[n] = k[n].ver                         \* GenRWSetFromTx / xmodel verifyInputs
+Fresh(tx, k) == /\ \A n \in Declared(tx) : tx.rd[n] = k[n].ver                      \* GenRWSetFromTx / xmodel verifyInputs: every record
+                /\ \A i \in 1..Len(tx.rdx) : tx.rdx[i].ver = k[tx.rdx[i].n].ver
 GasOK(tx) == LET g == Gas(tx.lim.c, tx.lim.x) IN IF tx.fee = -1 THEN g = 0 ELSE tx.fee > 0 /\ tx.fee >= g
-NoExt(tx) == Declared(tx) = {} /\ Written(tx) = {} /\ tx.ev = <<>> /\ tx.dcin = 0 /\ tx.dcout = <<>>
+NoExt(tx) == Declared(tx) = {} /\ tx.rdx = <<>> /\ tx.wl = <<>> /\ tx.ev = <<>> /\ tx.dcin = 0 /\ tx.dcout = <<>>
 VerifyF(f, tx, k) ==
   /\ tx.rin <= tx.dcin                        \* verifyUTXOPermission: an input of the vault needs to be a declared contract input
   /\ IF ~tx.hasreq THEN NoExt(tx)             \* no request: no read / write set allowed
@@ -239,18 +268,24 @@ VerifyF(f, tx, k) ==
           /\ GasOK(tx)
           /\ LET r == RunF(f, Env("rs", k, Declared(tx), tx.dcin, tx.lim.c, tx.lim.x), tx.prog) IN
              /\ r.st = "ok" \/ (f.st500 /\ r.st = "s500")
-             /\ r.out = tx.wr /\ r.ev = tx.ev /\ r.un = tx.dcin /\ r.uout = tx.dcout       \* xmodel.Equal on the whole write set
+             /\ SameRecords(tx.wl, r.out) /\ r.ev = tx.ev /\ r.un = tx.dcin /\ r.uout = tx.dcout       \* xmodel.Equal on the whole write set
           /\ f.unbound \/ (tx.rin = tx.dcin /\ BagIncl(tx.dcout, tx.rout))
 CommitOK(tx, k) ==
   /\ Fresh(tx, k)
   /\ \A n \in Written(tx) : n \in Declared(tx)       \* xmodel verifyOutputs
   /\ tx.rin <= NU /\ Change(tx) >= 0
-ApplyKV(tx, k) == [n \in Keys |-> IF tx.wr[n] = NoWrite THEN k[n]
-                                  ELSE [val |-> IF tx.wr[n] = DelMark THEN Absent ELSE tx.wr[n], ver |-> "t"]]
+Stored(v) == [val |-> IF v = DelMark THEN Absent ELSE v, ver |-> "t"]
+ApplyKV(tx, k) == [n \in Keys |-> IF n \notin Written(tx) THEN k[n] ELSE Stored(LastVal(tx, n))]      \* updateExtUtxo applies the records in order
 ApplyBal(tx, b) == [a |-> b.a - IniFunds + Change(tx) + SumTo(tx.rout, "a"), c |-> b.c + tx.toC,
                     v |-> b.v - tx.rin * UAmt + SumTo(tx.rout, "v"), x |-> b.x + SumTo(tx.rout, "x")]
+Refused(k, b) == [res |-> "reject", kv |-> k, bal |-> b]
 Outcome(f, tx, k, b) == IF VerifyF(f, tx, k) /\ CommitOK(tx, k) THEN [res |-> "admit", kv |-> ApplyKV(tx, k), bal |-> ApplyBal(tx, b)]
-                        ELSE [res |-> "reject", kv |-> k, bal |-> b]
+                        ELSE Refused(k, b)
+(* Tamperings that change nothing the property speaks about - the same records in another order, a declared read repeated with   *)
+(* the same (current) version: the property leaves the verdict open (R6), so a node may refuse them as long as it refuses        *)
+(* cleanly; if it admits, the commit is judged like any other.                                                                    *)
+FormOnly(t, k) == t.tk = "write_swap" \/ (t.tk = "read_dup" /\ t.v = k[t.n].ver)
+Outcomes(f, tx, t, k, b) == {Outcome(f, tx, k, b)} \cup (IF FormOnly(t, k) THEN {Refused(k, b)} ELSE {})
 
 (* ------------------------------------------------------------------ state ---------- *)
 NoSub == [tx |-> Honest(NoResp("none"), <<>>, 0), t |-> NoT, res |-> "", kv0 |-> [k \in Keys |-> Never], bal0 |-> [a |-> 0, c |-> 0, v |-> 0, x |-> 0]]
@@ -298,18 +333,20 @@ PickKind(k) == /\ phase = "pre" /\ Answered /\ k \in TamperKinds /\ (il = 0 \/ k
                /\ UNCHANGED <<kv, bal, prog, amt, resp, il, sub, hist>>
 
 (* State.VerifyTx, then State.DoTx, of the transaction assembled from the response and tampered with t *)
-DoSubmit(t) ==
+(* want: the verdict a recording shows ("" = any): narrows the choice where the specification leaves the verdict open *)
+DoSubmit(t, want) ==
   /\ phase \in {"pre", "kind"} /\ Answered
-  /\ \E tx \in {Tampered(Honest(resp, prog, amt), t, kv)} : \E o \in {Outcome(Flags, tx, kv, bal)} :
+  /\ \E tx \in {Tampered(Honest(resp, prog, amt), t, kv)} :
+     \E o \in LET S == Outcomes(Flags, tx, t, kv, bal) IN IF \E x \in S : x.res = want THEN {x \in S : x.res = want} ELSE S :
      /\ kv' = o.kv /\ bal' = o.bal
      /\ sub' = [tx |-> tx, t |-> t, res |-> o.res, kv0 |-> kv, bal0 |-> bal]
      /\ Log([op |-> "submit", tk |-> t.tk, n |-> t.n, v |-> t.v, j |-> t.j, d |-> t.d, prog |-> ExtProg(t.prog), res |-> o.res,
              \* which of the two calls refuses (informative: the property speaks about the outcome of both together)
              stage |-> IF o.res = "admit" THEN "" ELSE IF VerifyF(Flags, tx, kv) THEN "dotx" ELSE "verify",
-             dv |-> {KFName(d) : d \in {d \in {"unbound", "st500", "nested"} : Flags[d] /\ Outcome([Flags EXCEPT ![d] = FALSE], tx, kv, bal) # o}}])
+             dv |-> {KFName(d) : d \in {d \in {"unbound", "st500", "nested"} : Flags[d] /\ o \notin Outcomes([Flags EXCEPT ![d] = FALSE], tx, t, kv, bal)}}])
   /\ phase' = "done"
   /\ UNCHANGED <<prog, amt, resp, il, tkind>>
-Submit == phase = "kind" /\ \E t \in Params(tkind, Honest(resp, prog, amt)) : DoSubmit(t)
+Submit == phase = "kind" /\ \E t \in Params(tkind, Honest(resp, prog, amt)) : DoSubmit(t, "")
 (* a failed pre-execution ends the case *)
 GiveUp == /\ phase = "pre" /\ ~Answered /\ phase' = "done" /\ UNCHANGED <<kv, bal, prog, amt, resp, il, tkind, sub, hist>>
 
@@ -331,7 +368,14 @@ RespObs(rp) ==
    ev |-> rp.ev, cin |-> rp.cin, cout |-> rp.cout, tcin |-> rp.cin, tcout |-> rp.cout,     \* Flush wrote the utxo sets into the transient bucket
    gas |-> rp.gas, lim |-> rp.lim, other |-> <<>>]
 (* transient: the versions of the three records of the transient bucket (utxo inputs, utxo outputs, events), which no commit may store *)
-Obs == [keys |-> [k \in Keys |-> kv[k]], bal |-> bal, transient |-> <<"none", "none", "none">>, resp |-> RespObs(resp)]
+(* keys: the three keys as the node that executed the steps reads them (its version cache is warm); cold: as a node reads them  *)
+(* that has nothing but the stored data (opened on it after the fact); ref: the key of the write record the stored version of  *)
+(* key k refers to (transaction, offset), 0 = no version; scan / cscan: the keys a range read over the whole bucket returns, on *)
+(* the same two nodes.  All of them are functions of kv: a commit changes exactly the keys of the write set for every reader.   *)
+LiveKeys == SetToSortSeq({k \in Keys : kv[k].val # Absent}, <)
+Obs == [keys |-> [k \in Keys |-> kv[k]], cold |-> [k \in Keys |-> kv[k]], ref |-> [k \in Keys |-> IF kv[k].ver = "none" THEN 0 ELSE k],
+        scan |-> LiveKeys, cscan |-> LiveKeys,
+        bal |-> bal, transient |-> <<"none", "none", "none">>, resp |-> RespObs(resp)]
 
 (* ------------------------------------------------------------------ invariants ----- *)
 Done == phase = "done" /\ sub.res # ""
@@ -344,19 +388,20 @@ HonestAccepted == (Done /\ sub.t.tk = "none" /\ resp.res = "ok" /\ (il = 0 \/ re
 (* committing changes exactly the keys / outputs of the write set to exactly those values and nothing else *)
 CommitExact ==
   (Done /\ sub.res = "admit") =>
-     /\ \A n \in Keys : kv[n] = IF sub.tx.wr[n] = NoWrite THEN sub.kv0[n]
-                                ELSE [val |-> IF sub.tx.wr[n] = DelMark THEN Absent ELSE sub.tx.wr[n], ver |-> "t"]
+     /\ \A n \in Keys : IF n \notin Written(sub.tx) THEN kv[n] = sub.kv0[n]
+                        ELSE \A v \in RecVals(sub.tx, n) : kv[n] = Stored(v)          \* EVERY declared record is what the key now holds
      /\ bal = ApplyBal(sub.tx, sub.bal0)
-     /\ sub.t.tk = "none" => /\ sub.tx.wr = resp.wr           \* ... and untampered, that is the write set of the pre-execution
+     /\ sub.t.tk = "none" => /\ sub.tx.wl = OutSeq(resp.wr)   \* ... and untampered, that is the write set of the pre-execution
                              /\ bal.x = sub.bal0.x + SumTo(resp.cout, "x")
                              /\ bal.v = sub.bal0.v - resp.cin * UAmt + SumTo(resp.cout, "v")
                              /\ bal.a = sub.bal0.a - amt - resp.gas /\ bal.c = sub.bal0.c + amt
 (* each single tampering that makes the transaction claim something its execution does not produce, or pay less, is refused *)
-MustReject == {"read_ver", "write_drop", "write_add", "write_val", "limit_below", "fee_below", "amt_req", "amt_out",
-               "ev_alter", "ev_drop", "ctr_alter", "redirect", "cin_omit", "cin_extra"}
+MustReject == {"read_ver", "write_drop", "write_add", "write_val", "write_dup", "write_app", "limit_below", "fee_below", "amt_req", "amt_out",
+               "ev_alter", "ev_drop", "ctr_alter", "redirect", "cout_drop", "cin_omit", "cin_extra"}
 TamperRejected == (Done /\ sub.t.tk \in MustReject) => sub.res = "reject"
 (* a declared read that is not current *)
-StaleRejected == (Done /\ il # 0 /\ sub.tx.rd[il] # Undecl) => sub.res = "reject"
+StaleRejected == /\ (Done /\ il # 0 /\ sub.tx.rd[il] # Undecl) => sub.res = "reject"
+                 /\ (Done /\ ~Fresh(sub.tx, sub.kv0)) => sub.res = "reject"         \* any record of the declared read set, repeated ones included
 (* whatever was admitted is sound: declared reads current, re-executing ITS requests over ITS declared reads (no limits) ends  *)
 (* well and produces its declared writes, events and transfers, which are the transaction's real transfers, and it pays for   *)
 (* everything that execution uses                                                                                            *)
@@ -365,7 +410,7 @@ AdmittedSound ==
      /\ Fresh(sub.tx, sub.kv0)
      /\ LET r == RunF(Ideal, Env("rs", sub.kv0, Declared(sub.tx), sub.tx.dcin, Inf, Inf), sub.tx.prog) IN
         /\ r.st = "ok"
-        /\ r.out = sub.tx.wr /\ r.ev = sub.tx.ev
+        /\ SameRecords(sub.tx.wl, r.out) /\ r.ev = sub.tx.ev
         /\ r.un = sub.tx.rin /\ BagIncl(r.uout, sub.tx.rout)
         /\ (IF sub.tx.fee > 0 THEN sub.tx.fee ELSE 0) >= Gas(r.uc, r.ux)
      /\ sub.tx.amt = 0 \/ sub.tx.toC = sub.tx.amt
